@@ -95,7 +95,12 @@ NestedForall ==
 (* ------------------------------ nestings ------------------------------ *)
 CLeaves == << <<Break>>, <<Continue>>, <<Return(I(9))>>, <<Return(NoExpr)>>,
               <<Begin(<<RaiseS("E1")>>, <<When("E1", <<Break>>)>>)>>,
-              <<Begin(<<Break>>, <<When("OTHERS", <<P("never")>>)>>), P("x")>> >>
+              <<Begin(<<Break>>, <<When("OTHERS", <<P("never")>>)>>), P("x")>>,
+              \* loops left by an error: raised, raised again by the handler, a failing operation
+              <<RaiseS("E1")>>, <<Begin(<<RaiseS("E1")>>, <<When("E1", <<P("hr"), RaiseS("E2")>>)>>)>>, <<Let("X", Bin("/", I(1), I(0)))>>,
+              \* a condition that becomes null while the loop runs (a null tests false: the loop ends, nothing is raised)
+              <<Let("BB", B(TRUE)), While(V("BB"), <<P("nb"), Let("BB", NullC)>>), P("nz")>>,
+              <<Let("BB", B(TRUE)), While(V("BB"), <<P("nc"), Let("BB", Call("bool", <<>>))>>), If(V("BB"), <<P("t")>>, <<P("f")>>)>> >>
 \* leaves that read the root variable C are not placed inside function bodies (locals only there)
 CLeavesC == << <<If(Bin("==", V("C"), I(0)), <<Let("C", I(1)), Break>>, <<>>)>>,
                <<If(Bin("==", V("C"), I(0)), <<Let("C", I(1)), Continue>>, <<>>)>> >>
